@@ -5,8 +5,12 @@
    ----------------------------------------------------------------------------------------------
    holds exactly the bytes of the reference byte string
    after the same operations, same answers for length /
-   comparison / search / prefix / suffix queries          -> string_refines_values (all 56 operations,
-                                                             all histories; results and values)
+   comparison / search / prefix / suffix queries          -> string_refines_values (all 66 operations,
+                                                             all histories; results and values; since round 3 also
+                                                             operator+= / operator+ with a String, a char, a literal,
+                                                             d = v + u, fromBool, fromCString, toBool, the static
+                                                             find(in, str) / findOneOf(in, chars) and the static char
+                                                             functions)
    no bounds error / use after free / foreign write        -> run_memory_safe
    C-string view NUL-terminated at length()                -> cstr_nul_terminated
    modifying one String never changes another String       -> copies_independent
@@ -23,7 +27,14 @@
                                                              text handed to append / printf) inside string_refines_values
    lazy-copy bookkeeping (ref = number of handles, no
    handle to a freed block, everything freed at the end)   -> heap_invariant
-   case mapping through the tables of String.cpp           -> case_tables_are_ascii
+   case mapping through the tables of String.cpp           -> case_tables_are_ascii, char_functions_match_tables (for
+                                                             all 256 bytes: toLowerCase(c) / toUpperCase(c) / isSpace ...
+                                                             isHexDigit of the model = the reference functions, and the
+                                                             classifiers agree with the regenerated tables: upper case
+                                                             letters are what lowerCaseMap moves, ...)
+   append / concatenation incl. s += s and s = s + s       -> string_refines_values (OPlusEqS, OPlusEqC, OPlus, OPlusLit,
+                                                             OPlusAssign) + self_args_as_if_copied (kinds SPlusEq,
+                                                             SPlusLeft, SPlusRight, SPlusBoth) + plus_temporaries_die
    every visible byte is an initialised byte 0..255 (so the
    byte-range half of the domain predicate always holds on
    reachable states; only NUL-freeness restricts it)        -> values_are_bytes, visible_cells_initialised
@@ -34,7 +45,7 @@
    for NUL-free values (they are built on the C-string searches). *)
 From Coq Require Import ZArith List Bool.
 From Common Require Import Words ListAux.
-From Str Require Import StrSpec StrModel StrInv StrFun StrMain StrWf.
+From Str Require Import StrSpec StrModel StrInv StrFun StrChar StrPlus StrMain StrWf.
 Import ListNotations.
 
 Theorem string_refines_values : forall ops,
@@ -96,6 +107,25 @@ Print Assumptions heap_invariant_inductive.
 Theorem case_tables_are_ascii : forall c, (lowt c = lower c /\ uppt c = upper c)%Z.
 Proof. exact (fun c => conj (lowt_lower c) (uppt_upper c)). Qed.
 Print Assumptions case_tables_are_ascii.
+
+Theorem char_functions_match_tables : forall c, is_byte c = true ->
+  (forall q, m_char q c = s_char q c) /\
+  (m_isupper c = true <-> lowt c <> c) /\ (m_islower c = true <-> uppt c <> c) /\
+  (m_isalpha c = true <-> lowt c <> uppt c) /\
+  uppt (lowt c) = uppt c /\ lowt (uppt c) = lowt c /\
+  (m_isalpha c = true -> m_islower (lowt c) = true /\ m_isupper (uppt c) = true).
+Proof. exact char_functions_thm. Qed.
+Print Assumptions char_functions_match_tables.
+
+(* v + u leaves exactly one new variable behind (the temporaries String( *this) and String("literal") are gone),
+   holding the concatenation, in a block no other variable shares *)
+Theorem plus_temporaries_die : forall w v u hv hu, Inv w ->
+  nth_error (vars w) v = Some hv -> nth_error (vars w) u = Some hu ->
+  exists w' h', plus w v u = Ok w' /\ Inv w' /\ vars w' = vars w ++ [h'] /\ regs w' = regs w /\
+    (forall x g, nth_error (vars w) x = Some g -> h_cells w' g = h_cells w g) /\
+    h_cells w' h' = h_cells w hv ++ h_cells w hu.
+Proof. exact plus_ok. Qed.
+Print Assumptions plus_temporaries_die.
 
 Theorem values_are_bytes : forall ops s outs, spec_run sinit ops = Some (s, outs) ->
   Forall (fun v => bytes v = true) (svals s) /\ Forall (fun r => bytes r = true) (sregs s).
@@ -177,3 +207,46 @@ Example foreign_kept_instance :
     run w1 [OAppendC 0 122%Z; OPoke 0 0 65%Z] = Ok (w2, o2) /\ nth_error (regs w2) 0 = Some [120;121;33]%Z /\
     value w2 0 = [65;121;122]%Z.
 Proof. vm_compute. eexists _, _, _, _. split; [reflexivity|]. split; [reflexivity|]. split; reflexivity. Qed.
+
+(* round 3: concatenation operators (also with the variable itself on every side), fromBool / fromCString /
+   toBool, the static searches and char functions *)
+Definition demo3 : list op :=
+  [OLit [97;98]%Z; OBuf [48;46;48]%Z; OPlusEqS 0 0; OPlusEqC 0 33%Z; OPlus 0 1; OPlusLit 1 [120;0;121]%Z;
+   OPlusAssign 0 0 0; OPlusAssign 1 0 1; OFromBool true; OFromCStr [104;105]%Z; OFromCStrN [104;0;105;106]%Z 3;
+   OBuf [70;97;76;115;69]%Z; OToBool 7; OBuf [48;48]%Z; OToBool 8; OBuf [46;48]%Z; OToBool 9; OToBool 4;
+   OStat QFindStr 1 2; OStat QFindOneOfStr 1 9; OChar CLower 65%Z; OChar CUpper 255%Z; OChar CIsSpace 11%Z;
+   OChar CIsSpace 160%Z; OChar CIsPunct 96%Z; OChar CIsHexDigit 103%Z].
+
+Example demo3_in_domain :
+  exists s outs, spec_run sinit demo3 = Some (s, outs) /\
+    nth 0 (svals s) [] = [97;98;97;98;33;97;98;97;98;33]%Z /\
+    nth 2 (svals s) [] = [97;98;97;98;33;48;46;48]%Z /\ nth 3 (svals s) [] = [48;46;48;120;0;121]%Z /\
+    nth 4 (svals s) [] = [116;114;117;101]%Z /\ nth 6 (svals s) [] = [104;0;105]%Z /\
+    nth 12 outs RNone = RInt 0%Z /\ nth 14 outs RNone = RInt 1%Z /\ nth 16 outs RNone = RInt 0%Z /\ nth 17 outs RNone = RInt 1%Z /\
+    nth 18 outs RNone = RInt 5%Z /\ nth 19 outs RNone = RInt 10%Z /\ nth 20 outs RNone = RInt 97%Z /\ nth 21 outs RNone = RInt 255%Z /\
+    nth 22 outs RNone = RInt 1%Z /\ nth 23 outs RNone = RInt 0%Z /\ nth 24 outs RNone = RInt 1%Z /\ nth 25 outs RNone = RInt 0%Z.
+Proof. vm_compute. eexists _, _. split; [reflexivity|]. split; [reflexivity|]. split; [reflexivity|]. split; [reflexivity|].
+  split; [reflexivity|]. split; [reflexivity|]. split; [reflexivity|]. split; [reflexivity|]. split; [reflexivity|].
+  split; [reflexivity|]. split; [reflexivity|]. split; [reflexivity|]. split; [reflexivity|]. split; [reflexivity|].
+  split; [reflexivity|]. split; [reflexivity|]. split; [reflexivity|]. reflexivity. Qed.
+
+Example demo3_model_agrees :
+  exists w outs, run winit demo3 = Ok (w, outs) /\ Some (abs w, outs) = spec_run sinit demo3 /\
+    live_blocks w = 9 /\ length (vars w) = 10 /\ length (regs w) = 3.
+Proof. vm_compute. eexists _, _. split; [reflexivity|]. split; [reflexivity|]. split; [reflexivity|]. split; reflexivity. Qed.
+
+(* s = s + s on a literal, as if the argument were a copy *)
+Example self_plus_instance :
+  exists w, run winit [OLit [97;98]%Z] = Ok (w, [RNone]) /\
+    pre (abs w) (self_op SPlusBoth 0 0 0) = true /\
+    (exists w1 r1, step w (self_op SPlusBoth 0 0 0) = Ok (w1, r1) /\ value w1 0 = [97;98;97;98]%Z /\ live_blocks w1 = 1).
+Proof. vm_compute. eexists. split; [reflexivity|]. split; [reflexivity|]. eexists _, _. split; [reflexivity|]. split; reflexivity. Qed.
+
+Example char_tables_instance :
+  is_byte 90%Z = true /\ m_isupper 90%Z = true /\ lowt 90%Z = 122%Z /\ uppt 122%Z = 90%Z /\ m_char CIsAlpha 91%Z = 0%Z.
+Proof. vm_compute. split; [reflexivity|]. split; [reflexivity|]. split; [reflexivity|]. split; reflexivity. Qed.
+
+Example plus_instance :
+  exists w hv, run winit [OBuf [97]%Z; OCopy 0] = Ok (w, [RNone; RNone]) /\ nth_error (vars w) 0 = Some hv /\
+    exists w' h', plus w 0 0 = Ok w' /\ vars w' = vars w ++ [h'] /\ h' = HBlock 1 /\ live_blocks w' = 2.
+Proof. vm_compute. eexists _, _. split; [reflexivity|]. split; [reflexivity|]. eexists _, _. split; [reflexivity|]. split; [reflexivity|]. split; reflexivity. Qed.
